@@ -66,8 +66,19 @@ func runVotesCase(seed uint64, nOps int, restart bool, stats map[string]int) (V,
 		dk = append(dk, &types.MsgDelegateKeys{ValidatorAddress: valAddr(i).String(), OrchestratorAddress: orchAddr(i).String(),
 			ExternalAddress: ethAddrOf(0x70, i), EthSignature: []byte{1}, ChainId: "ethereum"})
 	}
-	env := NewEnv(EnvOpts{Params: DefaultTestParams([]string{"ethereum", "hub"}), Tokens: tokens,
-		States: []*types.ExternalState{{ChainId: "ethereum", DelegateKeys: dk}}})
+	// orchestrator accounts registered for another chain only: they are nobody on ethereum
+	var dkMinter []*types.MsgDelegateKeys
+	var foreignOrchs []sdk.AccAddress
+	for i := 0; i < nVals; i++ {
+		if rng.Chance(1, 2) {
+			o := orchAddr(100 + i)
+			foreignOrchs = append(foreignOrchs, o)
+			dkMinter = append(dkMinter, &types.MsgDelegateKeys{ValidatorAddress: valAddr(i).String(), OrchestratorAddress: o.String(),
+				ExternalAddress: ethAddrOf(0x60, i), EthSignature: []byte{1}, ChainId: "minter"})
+		}
+	}
+	env := NewEnv(EnvOpts{Params: DefaultTestParams([]string{"ethereum", "minter", "hub"}), Tokens: tokens,
+		States: []*types.ExternalState{{ChainId: "ethereum", DelegateKeys: dk}, {ChainId: "minter", DelegateKeys: dkMinter}}})
 
 	var ops, outs []V
 	record := func(op V, code int64) {
@@ -88,6 +99,7 @@ func runVotesCase(seed uint64, nOps int, restart bool, stats map[string]int) (V,
 		env.Acc.SetAccount(env.Ctx, authtypes.NewBaseAccount(sdk.AccAddress(valAddr(i)), nil, uint64(100+i), 0))
 	}
 	rotations := 0
+	wasBonded := map[int]bool{}
 	emitStaking := func() {
 		var sv, ov []V
 		for _, v := range env.Staking.Vals {
@@ -124,6 +136,18 @@ func runVotesCase(seed uint64, nOps int, restart bool, stats map[string]int) (V,
 				p = int64(1 + rng.Intn(1000000))
 			}
 			env.Staking.Vals = append(env.Staking.Vals, ValIn{Oper: valAddr(i), Power: p, Bonded: !rng.Chance(1, 8)})
+		}
+		// what x/staking tells the bridge when the bonded set changes
+		for i, v := range env.Staking.Vals {
+			was, known := wasBonded[i]
+			if known && !was && v.Bonded {
+				env.K.Hooks().AfterValidatorBonded(env.Ctx, sdk.ConsAddress(v.Oper), v.Oper)
+				stats["hook_bonded"]++
+			}
+			if known && was && !v.Bonded {
+				env.K.Hooks().AfterValidatorBeginUnbonding(env.Ctx, sdk.ConsAddress(v.Oper), v.Oper)
+			}
+			wasBonded[i] = v.Bonded
 		}
 		emitStaking()
 	}
@@ -211,6 +235,10 @@ func runVotesCase(seed uint64, nOps int, restart bool, stats map[string]int) (V,
 			case 2:
 				if len(orchs) > 0 {
 					signer = orchs[rng.Intn(len(orchs))].orch
+				}
+			case 3:
+				if len(foreignOrchs) > 0 && rng.Chance(1, 2) {
+					signer = foreignOrchs[rng.Intn(len(foreignOrchs))]
 				}
 			}
 			any, _ := types.PackEvent(ev)
